@@ -1,4 +1,4 @@
-(* C19 — abstract per-key admission model for the packaged client primitives.
+(* C19 — abstract per-key acceptance model for the packaged client primitives.
 
    State of one key = the list of outstanding holds in grant order (head = the oldest hold = LockManager.currentLock,
    server/lock.go AddLock/RemoveLock).  Each hold carries the LockId, its re-entrant depth (Lock.locked) and the
@@ -9,7 +9,7 @@
    `try_lock` / `unlock` follow LockDB.Lock (db.go:2023-2253) and LockDB.UnLock (db.go:2339-2511) for the flag subset
    the client primitives use.  What is abstracted: the wait queue (a waiter that is granted later is a `try_lock` at
    grant time — wakeUpWaitLocks calls the same doLock), `lockManager.waited` for keys that are held (it can only turn
-   an admission into a refusal), expiry/timeouts (an expiry is an `OUnlock`-like removal; theorems quantify over
+   an acceptance into a refusal), expiry/timeouts (an expiry is an `OUnlock`-like removal; theorems quantify over
    arbitrary releases), acks, data, AOF.  The integrator proves `admissible` equal to the translator-generated doLock and
    connects this model to the engine model as a refinement (DESIGN §5 C01/C19). *)
 From Coq Require Import NArith List Bool.
@@ -128,7 +128,7 @@ Definition holds_id (id : N) (s : kstate) : bool :=
    answer, "the live head of the wait queue is a plain waiter (no wait-when-unlock flag)", Count of the oldest hold, Count of
    the request.  On a free key the code forces waited := false for a plain request; `lock_newcomer_checks_wait_queue`
    (regenerated: does LockDB.Lock call GetWaitLock?) switches in the variant that keeps it true while plain waiters queue. *)
-Definition newcomer_admitted (lck : N) (mgr_waited wait_unlock prio_flag higher_than_waiting head_live_plain : bool)
+Definition newcomer_accepted (lck : N) (mgr_waited wait_unlock prio_flag higher_than_waiting head_live_plain : bool)
                              (cur req_count : N) : bool :=
   let waited := if lck =? 0
                 then wait_unlock || (lock_newcomer_checks_wait_queue && mgr_waited && head_live_plain)
